@@ -684,7 +684,7 @@ impl NetM {
     }
 
     fn feed_net(n: &mut Net<Addr>, cb: &mut NetCb, addr: Addr, data: &[u8]) -> Vec<OwnedEvent> {
-        let mut buf = [0u8; 2048];
+        let mut buf = [0u8; 1400]; // MAX_PACKETSIZE: what the callers in the repository pass, the minimum accepted
         let mut w: Vec<String> = Vec::new();
         struct W<'a>(&'a mut Vec<String>);
         impl<'a> libtw2_warn::Warn<net::Warning<Addr>> for W<'a> {
